@@ -1,6 +1,6 @@
 #!/bin/bash
 # tools/runall.sh [tier] : run every claimed check in /verif against /repo, summarise
-cd /verif
+cd "$(dirname "$0")/.."
 tier="${1:-quick}"
 for p in $(python3 -c "import json; print(' '.join(c['property_id'] for c in json.load(open('MANIFEST.json'))['checks']))"); do
   out=$(./check $p --tier $tier 2>&1); rc=$?
